@@ -173,9 +173,13 @@ def main():
         from collections import Counter
         c = Counter(r["outcome"].split(":")[0] for r in rs)
         print(dict(c))
+        import difflib
         for r in rs:
             if r["outcome"] == "SURVIVED":
-                print("=" * 100); print(r["file"], r["site"], r["label"], {k: v["s"] for k, v in r["checks"].items()}); print(r.get("diff", "")[:1500])
+                src = open(os.path.join("/repo", r["file"])).read()
+                a = ast.unparse(ast.parse(src)).split("\n"); b = mutate(src, r["site"])[1].split("\n")
+                d = [l for l in difflib.unified_diff(a, b, lineterm="", n=2)][2:]
+                print("=" * 100); print(r["file"], r["site"], r["label"], {k: v["s"] for k, v in r["checks"].items()}); print("\n".join(d)[:1500])
     elif cmd == "cleanup":
         shutil.rmtree(SCR, ignore_errors=True); print("removed", SCR)
 
